@@ -82,16 +82,16 @@ theorem charPhase_correct (cfg : Cfg) (m : WModel) (tagNgrams : List (List (TagN
     ∃ r st, charPhase cs text states buf = .ok (r, st) ∧ r.length = buf.length ∧
       ∀ b, 7 + b < buf.length → r.getD (7 + b) 0 = buf.getD (7 + b) 0 +
         (ngramScore m.charW m.charNgrams text b + dictScore m.dict text b) := by
-  simp only [charScorerNew] at h
+  have hW0 : ¬ m.charW = 0 := by omega
+  simp only [charScorerNew, hW0, if_false] at h
   split at h
   · -- no scorer
     rename_i hcond
     simp only [Res.ok.injEq] at h
     subst h
-    have hW0 : ¬ m.charW = 0 := by omega
     have hE : m.charNgrams.isEmpty = true ∧ m.dict.isEmpty = true := by
       revert hcond
-      cases m.charNgrams.isEmpty <;> cases m.dict.isEmpty <;> simp [hW0]
+      cases m.charNgrams.isEmpty <;> cases m.dict.isEmpty <;> simp
     rw [List.isEmpty_iff, List.isEmpty_iff] at hE
     refine ⟨buf, states, rfl, rfl, fun b _ => ?_⟩
     simp [ngramScore, dictScore, hE.1, hE.2]
@@ -158,15 +158,15 @@ theorem typePhase_correct (cfg : Cfg) (m : WModel) (tagNgrams : List (List (TagN
     (buf : List Int) (hbuf : buf.length = types.length + 13) (states : List (Option Nat)) :
     ∃ r st, typePhase ts types nB states buf = .ok (r, st) ∧ r.length = buf.length ∧
       ∀ b, b < nB → r.getD (7 + b) 0 = buf.getD (7 + b) 0 + ngramScore m.typeW m.typeNgrams types b := by
-  simp only [typeScorerNew] at h
+  have hW0 : ¬ m.typeW = 0 := by omega
+  simp only [typeScorerNew, hW0, if_false] at h
   split at h
   · rename_i hcond
     simp only [Res.ok.injEq] at h
     subst h
-    have hW0 : ¬ m.typeW = 0 := by omega
     have hE : m.typeNgrams.isEmpty = true := by
       revert hcond
-      cases m.typeNgrams.isEmpty <;> simp [hW0]
+      cases m.typeNgrams.isEmpty <;> simp
     rw [List.isEmpty_iff] at hE
     refine ⟨buf, states, rfl, rfl, fun b _ => ?_⟩
     simp [ngramScore, hE]
